@@ -128,6 +128,47 @@ def model_decode(data: bytes) -> str:
     return text.replace("\r\n", "\n").replace("\r", "\n")
 
 
+def _effective_encoding(data: bytes) -> str:
+    """The encoding CPython reads a source file with: the PEP 263 declaration in the first two
+    lines (any of LF, CRLF, CR ends a line for the interpreter), else UTF-8; codec names normalised."""
+    import codecs as _codecs
+
+    text = data.decode("latin-1").replace("\r\n", "\n").replace("\r", "\n")
+    name = declared_encoding(text) or "utf-8"
+    try:
+        return _codecs.lookup(name).name
+    except LookupError:
+        return name.lower()
+
+
+def _word(rng, cls, n=5):
+    plain = [c for c in ALPHABETS[cls] if c.isalnum()] or ["x"]
+    return "".join(rng.choice(plain) for _ in range(n))
+
+
+def prog_edit(rng, text, codec):
+    """An edit that keeps a program module valid Python: a comment or an assignment with text
+    in the module's own alphabet is inserted at a top-level boundary, or such a line is removed."""
+    cookie, cls, enc = codec
+    lines = text.split("\n")
+    lo = 2 if cookie else 0
+    mine = [k for k in range(lo, len(lines)) if lines[k].startswith(("# ed ", "ed_"))]
+    if mine and rng.random() < 0.3:
+        del lines[rng.choice(mine)]
+        return "\n".join(lines)
+    spots = [k for k in range(lo, len(lines)) if lines[k][:1] and not lines[k][:1].isspace()] + [len(lines) - (1 if lines and lines[-1] == "" else 0)]
+    k = rng.choice(spots)
+    new_line = ("# ed %s" % _word(rng, cls)) if rng.random() < 0.5 else ("ed_%d = '%s'" % (rng.randint(0, 99), _word(rng, cls)))
+    lines.insert(k, new_line)
+    new = "\n".join(lines)
+    try:
+        if new.encode(enc).decode(enc) != new:
+            return text + "# ed x\n"
+    except (UnicodeError, LookupError):
+        return text + "# ed x\n"
+    return new
+
+
 def edit_of(rng, text, codec, nls=("lf", "crlf", "cr")):
     """A partial edit: one line inserted, deleted or replaced; everything else
     (cookie line included) untouched."""
@@ -222,6 +263,26 @@ class ByteStoreEngine(Engine):
             for e in init:
                 if not e.get("dir"):
                     codecs[e["p"]] = [None, "utf8", "utf-8"]
+            if rng.random() < 0.5:
+                # the whole program is kept in a legacy encoding: every module declares it and
+                # carries text that only round-trips under that declaration
+                pc = rng.choice([c for c in CODECS if c[0] and c[1] in ("latin", "cyr", "jp")])
+                swarm["program_codec"] = pc[0]
+                for e in init:
+                    if e.get("dir") or (not e["text"] and rng.random() < 0.5):
+                        continue
+                    body = "".join(l for l in e["text"].splitlines(True) if not l.startswith("note = "))
+                    head = "# -*- coding: %s -*-\n# %s\n" % (pc[0], _word(rng, pc[1]))
+                    if rng.random() < 0.5:
+                        body += "note = '%s'\n" % _word(rng, pc[1])
+                    text = head + body
+                    try:
+                        if text.encode(pc[2]).decode(pc[2]) != text:
+                            continue
+                    except (UnicodeError, LookupError):
+                        continue
+                    e["text"], e["enc"] = text, pc[2]
+                    codecs[e["p"]] = list(pc)
             if rng.random() < 0.6:
                 # a module that so far is only its header (shebang, coding line, copyright): the
                 # "new module from a template" shape; things are moved into it by refactorings
@@ -259,6 +320,10 @@ class ByteStoreEngine(Engine):
             held = rng.random() < 0.6
             if k in ("read", "same_write", "same_do"):
                 steps.append({"op": k, "path": p, "held": held})
+            elif k in ("edit", "file_write") and swarm["program"] and p.endswith(".py"):
+                new = prog_edit(rng, texts[p], tuple(codecs[p]))
+                steps.append({"op": k, "path": p, "text": new, "held": held, "id": nid})
+                texts[p] = new
             elif k == "edit":
                 new = edit_of(rng, texts[p], tuple(codecs[p]), (nls.get(p, "lf"),)) if rng.random() < 0.8 else gen_store_text(rng, tuple(codecs[p]), nls=(nls.get(p, "lf"),))
                 steps.append({"op": "edit", "path": p, "text": new, "held": held, "id": nid})
@@ -311,6 +376,20 @@ class ByteStoreEngine(Engine):
                     dests = ["hdr.py"]
                 steps.append({"op": "refactor", "kind": "move_global", "path": src[0] if src else p, "ident": ident,
                               "dest": rng.choice(dests) if dests else p, "id": nid})
+            elif k == "refactor" and rng.random() < 0.45:
+                r = rng.random()
+                pys = [q for q in files if q.endswith(".py")]
+                if r < 0.35:
+                    steps.append({"op": "refactor", "kind": "organize", "path": rng.choice(pys) if pys else p, "id": nid,
+                                  "action": rng.choice(["organize_imports", "organize_imports", "expand_star_imports", "froms_to_imports", "handle_long_imports"])})
+                elif r < 0.7:
+                    frag = rng.choice(["a + 1", "foo(a)", "foo(self.attr)", "beta.Box(3)", "b.get()", "self.v", "Box(1)", "m1.foo(v) + m1.const", "foo(2)", "k.meth()"])
+                    src = [q for q in files if frag in texts.get(q, "")]
+                    steps.append({"op": "refactor", "kind": "extract_variable" if rng.random() < 0.7 else "extract_method", "path": src[0] if src else p,
+                                  "fragment": frag, "new": rng.choice(gen.NEW_IDENTS) + str(nid), "id": nid})
+                else:
+                    steps.append({"op": "refactor", "kind": "inline", "path": rng.choice(pys) if pys else p, "ident": rng.choice(["const", "v", "summ", "make", "foo", "k", "thing"]),
+                                  "occ": rng.randrange(3), "id": nid})
             elif k == "refactor":
                 steps.append({"op": "refactor", "kind": "rename", "path": p, "ident": rng.choice(gen.PROGRAM_IDENTS),
                               "occ": rng.randrange(4), "new": rng.choice(gen.NEW_IDENTS) + str(nid), "id": nid, "docs": False})
@@ -570,11 +649,32 @@ class ByteStoreEngine(Engine):
                         for o in ops:
                             was, new_b = cur.files.get(o[1]), now.get(o[1])
                             if isinstance(was, bytes) and isinstance(new_b, bytes):
-                                d0, d1 = declared_encoding(was.decode("latin-1")), declared_encoding(new_b.decode("latin-1"))
-                                if d0 is not None:
+                                # (as the interpreter reads it: CR, CRLF and LF all end a line there; the
+                                # effective encoding counts, so "none" and an explicit utf-8 are the same)
+                                d0, d1 = _effective_encoding(was), _effective_encoding(new_b)
+                                if d0 != "utf-8":
                                     out.stats["probe_refactoring_edited_file_with_coding_line"] += 1
                                 if d0 != d1 and not bad:
                                     bad = ("refactoring_changed_declared_encoding", {"path": o[1], "before": d0, "after": d1})
+                        # ... and so is every non-ASCII character of the files it edits (rope's refactorings
+                        # cut, paste and re-indent text; none of them is meant to drop or alter such a character)
+                        def _chars(tree):
+                            got = set()
+                            for o in ops:
+                                b = tree.get(o[1])
+                                if isinstance(b, bytes):
+                                    enc = _effective_encoding(b)
+                                    try:
+                                        got |= {c for c in b.decode(enc) if ord(c) > 127}
+                                    except (UnicodeError, LookupError):
+                                        return None
+                            return got
+
+                        c0, c1 = _chars(cur.files), _chars(now)
+                        if c0:
+                            out.stats["probe_refactoring_edited_file_with_non_ascii"] += 1
+                        if c0 is not None and not bad and st["kind"] != "inline" and (c1 is None or not c0 <= c1):
+                            bad = ("refactoring_lost_non_ascii", {"kind": st["kind"], "lost": sorted(c0 - (c1 or set()))[:8]})
                 except Exception as e:
                     bad = ("step_raised", {"exc": repr(e)[:300]})
                     sig["exc"] = type(e).__name__
